@@ -90,6 +90,8 @@ pub struct E1Hook {
     pub wall: Mutex<Option<(u64, tokio::time::Instant, i64)>>,
     pub log_events: bool,
     pub on_event: Mutex<Option<Box<dyn Fn(&str, &str) + Send + Sync>>>,
+    /// last value handed out for `pkarr.timestamp.now` (per-run monotonic clock)
+    last_ts: Mutex<u64>,
 }
 
 pub struct HookGuard(pub Arc<E1Hook>);
@@ -110,6 +112,7 @@ impl E1Hook {
             wall: Mutex::new(None),
             log_events: true,
             on_event: Mutex::new(None),
+            last_ts: Mutex::new(0),
         });
         verif::install(Some(h.clone() as Arc<dyn Hook>));
         HookGuard(h)
@@ -139,6 +142,14 @@ impl Hook for E1Hook {
         }
     }
     fn stub(&self, site: &'static str, arg: &str) -> Option<String> {
+        if site == "pkarr.timestamp.now" {
+            // strictly monotonic per run, driven by the simulated wall clock
+            let wall = self.wall_clock_micros()?;
+            let mut last = self.last_ts.lock().unwrap();
+            let v = wall.max(*last + 1);
+            *last = v;
+            return Some(v.to_string());
+        }
         self.stub.lock().unwrap().as_ref().and_then(|f| f(site, arg))
     }
     fn wall_clock_micros(&self) -> Option<u64> {
